@@ -5,14 +5,17 @@
 // traversal code.  Line format: see ocaml/select/driver.ml.
 //
 // Operation counts (C19), all exact:
-//   - GetAncestors / GetDescendants append one element per (recursive) call made from their
-//     loop body, so   calls(f, n) = len(f(n)) + 1.
+//   - GetAncestors / GetDescendants append one element per recursive call made from the loop
+//     body of their traversal (with or without a visited set), so
+//     calls(f, n) = len(f(n)) + 1.
 //   - selectAllAncestorsForBuild returns nothing.  SelectTargetsForBuild calls node.Select()
 //     once immediately before the top-level call for a root and the function calls
 //     ancestor.Select() once immediately before each recursive call, and nowhere else: the
 //     number of Select() calls on the nodes equals the number of entries into
-//     selectAllAncestorsForBuild (as long as no platform error cuts the loop short).  The
-//     cost command therefore uses a BuildNode implementation that counts Select().
+//     selectAllAncestorsForBuild (as long as no platform error cuts the loop short; the cost
+//     command selects a single root).  The cost command therefore uses a BuildNode
+//     implementation that counts Select().
+//   The model side: Select.select_visited_calls / ancestors_visited_calls / descendants_visited_calls.
 package main
 
 import (
@@ -127,6 +130,15 @@ func parseCfg(s string) (*selection.Selector, string) {
 	tags, excl := unhexAll(f[2]), unhexAll(f[3])
 	config.Global.Tags, config.Global.ExcludeTags = tags, excl
 	return selection.New(pats, tags, excl, tt), ""
+}
+
+// ordered: the indices as they come
+func ordered(xs []int) string {
+	ss := make([]string, len(xs))
+	for i, x := range xs {
+		ss[i] = strconv.Itoa(x)
+	}
+	return strings.Join(ss, ",")
 }
 
 func ints(xs []int) string {
@@ -296,7 +308,10 @@ func main() {
 			}
 			i, _ := strconv.Atoi(f[3])
 			if f[0] == "ancestors" {
-				return "ms\t" + ints(wd.idxOf(wd.graph.GetAncestors(wd.nodes[i])))
+				// multiset, and the order of the slice (in-edges are in declaration order)
+				anc := wd.idxOf(wd.graph.GetAncestors(wd.nodes[i]))
+				ord := ordered(anc)
+				return "ms\t" + ints(anc) + "\tord\t" + ord
 			}
 			return "ms\t" + ints(wd.idxOf(wd.graph.GetDescendants(wd.nodes[i])))
 		case "direct":
